@@ -49,6 +49,14 @@ add("C03", "pipe", "exploration",
     "Trusts go/token.IsIdentifier for identifier validity and the Go compiler for the file-level confirmation.",
     "DESIGN.md section 3, C03")
 
+add("C20", "pure", "exploration",
+    "property-based testing (rapid) with a metamorphic prefix relation, under the race detector, concurrent scenarios in fresh child processes; native go fuzz target in thorough",
+    "Every irregular and uninflected word (lists parsed from the source at run time) in four letter cases, alone and behind generated prefixes, plus free strings with "
+    "case-fold aliases: no panic, f(s)==f(s), f(prefix+word)==prefix+f(word). Concurrent scenarios (2-32 goroutines on cold keys) run in a child process of the "
+    "-race binary; any race report, fatal error or result differing from the sequential one is a violation.",
+    "Trusts the Go race detector and regexp word-boundary semantics; schedules are sampled, not enumerated.",
+    "DESIGN.md section 3, C20")
+
 ALL = ["C%02d" % i for i in range(1, 21)]
 
 def main():
